@@ -55,26 +55,39 @@ peg::parser! {
             ['\\'] [c] { c.to_string() }
 
         rule bracket_expression() -> String =
-            "[" invert:(invert_char()?) members:bracket_member()+ "]" {
-                let mut members = members.into_iter().flatten().collect::<Vec<_>>();
+            "[" invert:(invert_char()?) leading:leading_close_bracket()? rest:bracket_member()* "]" {?
+                // There must be at least one member between the brackets.
+                if leading.is_none() && rest.is_empty() {
+                    return Err("bracket expression member");
+                }
+
+                let mut members = leading
+                    .into_iter()
+                    .chain(rest.into_iter().flatten())
+                    .collect::<Vec<_>>();
 
                 // If we completed the parse but ended up with no valid members
                 // of the bracket expression, then return a regex that matches nothing.
                 // (Or in the inverted case, matches everything.)
                 if members.is_empty() {
                     if invert.is_some() {
-                        String::from(".")
+                        Ok(String::from("."))
                     } else {
-                        String::from("(?!)")
+                        Ok(String::from("(?!)"))
                     }
                 } else {
                     if invert.is_some() {
                         members.insert(0, String::from("^"));
                     }
 
-                    std::format!("[{}]", members.join(""))
+                    Ok(std::format!("[{}]", members.join("")))
                 }
             }
+
+        // A closing bracket that comes first in a bracket expression (after any inversion
+        // character) is a literal member, not the end of the expression.
+        rule leading_close_bracket() -> String =
+            "]" { String::from(r"\]") }
 
         rule invert_char() -> bool =
             ['!' | '^'] { true }
